@@ -21,8 +21,9 @@ REPO = "/repo"
 HARNESS = os.path.join(VERIF, "harness")
 TARGET = os.path.join(VERIF, "target")
 WORK = os.path.join(VERIF, "work")
-EVID = os.path.join(VERIF, "evidence")
-REPLAY = os.path.join(VERIF, "replay")
+# development runs against deliberately broken trees redirect their output (tools/try_seed.sh)
+EVID = os.environ.get("KV_EVIDENCE_DIR") or os.path.join(VERIF, "evidence")
+REPLAY = os.environ.get("KV_REPLAY_DIR") or os.path.join(VERIF, "replay")
 KNOWN_FILE = os.path.join(VERIF, "KNOWN_FINDINGS.txt")
 NCPU = os.cpu_count() or 4
 
